@@ -513,7 +513,9 @@ def gen_operand(draw, env, kind):
     if spec and spec.get('kind') == 'matrix':
         dims = (spec['height'], spec['width'])
     else:
-        dims = (3, 3)
+        # not a matrix light: the command is ignored whatever cell below
+        # 255 it names
+        dims = pick(draw, [(3, 3), (3, 3), (17, 17), (255, 255)])
     if tag == 'matrix_inline':
         rows, cols, order = gen_rect(draw, env, dims)
         if rows is None and cols is None:
